@@ -17,6 +17,7 @@ mod c13;
 mod c16;
 mod gr;
 mod c05;
+mod c01;
 
 pub type Gen = fn(&mut util::Rng, &str) -> String;
 pub type Exec = fn(&[&str]) -> String;
@@ -33,6 +34,8 @@ fn table(prop: &str) -> Option<(Gen, Exec)> {
         "C13" => Some((c13::gen, c13::exec)),
         "C16" => Some((c16::gen, c16::exec)),
         "C05" => Some((c05::gen, c05::exec)),
+        "C01" => Some((c01::gen, c01::exec)),
+        "C02" => Some((c01::gen02, c01::exec)),
         "C12" => Some((c13::gen12, c13::exec)),
         _ => None,
     }
@@ -58,8 +61,12 @@ fn main() {
         std::panic::set_hook(Box::new(|_| {}));
     }
     let args: Vec<String> = std::env::args().collect();
-    let out = std::io::stdout();
-    let mut out = std::io::BufWriter::new(out.lock());
+    // protocol lines go to the file named by VERIF_OUT (the library itself prints diagnostics to stdout
+    // before some of its panics); without it they go to stdout
+    let mut out: Box<dyn Write> = match std::env::var("VERIF_OUT") {
+        Ok(p) => Box::new(std::io::BufWriter::new(std::fs::File::create(p).unwrap())),
+        Err(_) => Box::new(std::io::BufWriter::new(std::io::stdout())),
+    };
     match args.get(1).map(|s| s.as_str()) {
         Some("gen") => {
             let prop = &args[2];
